@@ -102,37 +102,48 @@ def run(rep):
     n_rows = 0
     # conditions inherited from the selection of the struct (C08's predicate) are fixed to "a struct taken by an entry point and not
     # returned by one" - the derive guards are judged for structs that are emitted
-    from rules.c08 import classify_any
+    from rules.c08 import classify_ep
     sel_cache = {}
 
     def selection_atom(t):
-        if t[0] != 'any':
+        """value of a condition on the entry points (an `any` over them, or membership of this type in a set collected from them) for a struct
+        that some entry point takes as an argument and none returns"""
+        if t[0] != 'any' and not (t[0] == 'mcall' and t[2] == 'contains' and t[3] == [('tf', elem, 0)] and t[1][0] != 'new'):
             return None
-        k = id(t)
+        k = repr(t)
         if k not in sel_cache:
-            sel_cache[k] = classify_any(ogp, t, st[1][1], ('tf', elem, 0))
+            tb = classify_ep(ogp, t, st[1][1], ('tf', elem, 0))
+            sel_cache[k] = tb
         return sel_cache[k]
+    # a struct that is not host-shareable is emitted only as an entry-point argument that no entry point returns (A false, B true); a
+    # host-shareable one may be any of the four - its derives must not depend on that
+    combos = []
     for vals in itertools.product([False, True], repeat=6):
+        for ab in ([(False, True)] if not vals[4] else [(False, True), (False, False), (True, False), (True, True)]):
+            combos.append((vals, ab))
+    uses_ep = [False]
+    for vals, ab in combos:
+        if ab != (False, True) and not uses_ep[0]:
+            continue        # the guards consult no condition on the entry points: the extra rows would repeat the first
         row = dict(zip(ATOMS + ['hs', 'rts'], vals))
 
-        def leaf(t, row=row):
+        def leaf(t, row=row, ab=ab):
             if t[0] == 'f' and t[1] == optP and t[2] in ATOMS:
                 return (row[t[2]],)
-            if t[0] == 'mcall' and t[2] == 'contains' and len(t[3]) == 1 and t[3][0] == ('tf', elem, 0):
-                return (row['hs'],)
             if is_rts_any(t):
                 return (row['rts'],)
             sa = selection_atom(t)
-            if sa == 'A':
-                return (False,)
-            if sa == 'B':
-                return (True,)
+            if sa is not None:
+                uses_ep[0] = True
+                return (sa[ab],)
+            if t[0] == 'mcall' and t[2] == 'contains' and len(t[3]) == 1 and t[3][0] == ('tf', elem, 0):
+                return (row['hs'],)
             if t == inner:
                 return (V('naga::TypeInner::Struct', members=(), span=0),)
             return None
         ev = Eval(leaf, lenient=False)
         label = ''.join('1' if v else '0' for v in vals)
-        key = f'row:{label}'
+        key = f'row:{label}' + ('' if ab == (False, True) else f':entry-result={int(ab[0])},entry-argument={int(ab[1])}')
         exp_panic, exp_der, exp_repr, exp_assert = expected(row)
         try:
             panics = False
@@ -159,8 +170,8 @@ def run(rep):
         except Diverge as d:
             panics = True
             got, has_repr, has_assert = [], None, None
-        n_rows += 1
-        desc = ', '.join(f'{k}={int(v)}' for k, v in row.items())
+        n_rows += ab == (False, True)
+        desc = ', '.join(f'{k}={int(v)}' for k, v in row.items()) + ('' if ab == (False, True) else f', entry result={int(ab[0])}, entry argument={int(ab[1])}')
         if exp_panic or panics:
             rep.check(exp_panic == panics, 'C09.panic-rows', key, where,
                       f'[{desc}] generator {"panics" if panics else "does not panic"}, the documented behaviour is {"a panic" if exp_panic else "output"} '
@@ -177,7 +188,8 @@ def run(rep):
     # the `host_shareable` atom: membership of this type's handle in the closure set of all module-scope variable types
     sets = []
     for en in entries:
-        E.walk(en['cond'], lambda x: sets.append(x[1]) if x[0] == 'mcall' and x[2] == 'contains' and x[3] == [('tf', elem, 0)] and not any(x[1] == s_ for s_ in sets) else None)
+        E.walk(en['cond'], lambda x: sets.append(x[1]) if x[0] == 'mcall' and x[2] == 'contains' and x[3] == [('tf', elem, 0)] and selection_atom(x) is None
+               and not any(x[1] == s_ for s_ in sets) else None)
     rep.check(len(sets) == 1, 'C09.host-shareable-atom', 'one-set', where, f'the derive guards consult {len(sets)} different sets for "host-shareable"', ok_detail='one closure set')
     if len(sets) == 1:
         from rules.c08 import closure_discipline
